@@ -20,7 +20,7 @@ import numpy as np
 from harness import common as C
 
 HEADER = """From Coq Require Import List ZArith QArith Bool. Import ListNotations.
-From TLV Require Import Base.Tensor Model.Nnls Corr.C13."""
+From TLV Require Import Base.Tensor Model.Nnls Model.NnlsAdmm Model.NnlsMomentum Corr.C13."""
 
 EP_HALS = "tensorly.solvers.nnls.hals_nnls"
 EP_FISTA = "tensorly.solvers.nnls.fista"
@@ -195,7 +195,11 @@ def run_fista_converged(p, x0, eps=0.0, lr=None, arrays=None):
 # witnesses live in corpus/C13/*.json and run first.
 # A fourth one (round 5): fista(ridge_coef=None) raised TypeError although the docstring offers `float or None`; repaired by ae57725
 # (Example C13_fista_ridge_none_before_ae57725; the entry-call cases C'' pass ridge_coef=None on every run).
-CLASSIFIERS = {}     # no known finding at present (fista_ridge_coef_none was repaired by /repo ae57725)
+# A fifth one (round 7, found when the whole function admm was modelled): admm(n_const=1, <constraint>) with `order` left at its default
+# None raises TypeError (validate_constraints indexes its lists with None) although the docstring recommends exactly this call outside
+# constrained_parafac -> known finding admm_order_none (candidate repair build/fix_candidates/C13_admm_order_none.diff).
+from harness.props import C13_admm
+CLASSIFIERS = {"admm_order_none": C13_admm.clf_admm_order_none}
 
 
 def _load_known_with_own_snippet():
@@ -255,8 +259,8 @@ def inputs_json(p, **kw):
 # ----------------------------------------------------------------------------- case generation
 def tiers(tier):
     if tier == "quick":
-        return dict(nprob=30, npass=40, nfista=24, nas=56, nadmm=10, aswarm=80, ncold=12, nfista2=10, nseq=8, ncall=8)
-    return dict(nprob=240, npass=400, nfista=160, nas=640, nadmm=60, aswarm=1500, ncold=100, nfista2=80, nseq=80, ncall=48)
+        return dict(nprob=30, npass=40, nfista=24, nas=56, nadmm=10, aswarm=80, ncold=12, nfista2=10, nseq=8, ncall=8, nadmmloop=16, nadmmpred=12)
+    return dict(nprob=240, npass=400, nfista=160, nas=640, nadmm=60, aswarm=1500, ncold=100, nfista2=80, nseq=80, ncall=48, nadmmloop=130, nadmmpred=100)
 
 
 def dyadic_start(rng, r, n, kind):
@@ -308,9 +312,38 @@ def fista_betas(K):
     return betas
 
 
+def union_print_assumptions(prop, names):
+    """Print Assumptions asked ONCE for a term that mentions every property theorem (one walk through the Reals library instead of one
+    per theorem: ~1.5 CPU-s instead of ~0.8 s x 80; same device as harness/props/C12.py).  The answer is the union of the theorems'
+    axioms; when it contains nothing but standard-library axioms every theorem is clean and each is reported with that union (an
+    over-approximation of its own list).  Otherwise -- or if the question cannot be asked (a theorem is missing) -- the per-theorem
+    question of common.print_assumptions is asked instead."""
+    import os, re, shutil, subprocess
+    d = os.path.join(C.BUILD, "pa", f"{os.getpid()}_{prop}_union"); shutil.rmtree(d, ignore_errors=True); os.makedirs(d, exist_ok=True)
+    fn = os.path.join(d, f"PAU_{prop}.v")
+    with open(fn, "w") as f:
+        f.write(f"From TLV Require Import Props.{prop}.\n")
+        f.write("Definition all_property_theorems : True :=\n" + "".join(f"  let _ := @{n} in\n" for n in names) + "  I.\n")
+        f.write('Goal True. idtac "@@BEGIN". exact I. Qed.\nPrint Assumptions all_property_theorems.\nGoal True. idtac "@@END". exact I. Qed.\n')
+    r = subprocess.run(["timeout", "600", "coqc", "-R", os.path.join(C.COQ, "theories"), "TLV", fn], capture_output=True, text=True, cwd=d)
+    shutil.rmtree(d, ignore_errors=True)
+    if r.returncode == 0 and "@@BEGIN" in r.stdout and "@@END" in r.stdout:
+        body = r.stdout.split("@@BEGIN", 1)[1].split("@@END")[0]
+        if "Closed under the global context" in body:
+            return {n: [] for n in names}, r.stdout
+        axs = sorted(a for a in set(re.findall(r"^([A-Za-z_][\w.']*)\s*:", body, re.M)) if a not in ("Axioms", "Variables", "Hypotheses"))
+        if axs and not C.own_axioms(axs):
+            return {n: list(axs) for n in names}, r.stdout
+    return _common_print_assumptions(prop, names)
+
+
+_common_print_assumptions = C.print_assumptions
+
+
 def run(chk):
     rng = random.Random(chk.seed)
     _load_known_with_own_snippet()
+    C.print_assumptions = union_print_assumptions
     chk.build_proofs()
     # common.print_assumptions parses the header line "Axioms:" of Print Assumptions as an axiom called 'Axioms'
     # (reported to the coordinator); drop exactly that pseudo-entry, keep every real one
@@ -888,6 +921,10 @@ def run(chk):
         add_case(lambda cid: f"(CAdmm {cid}%nat {mat_lit(UtM)} {mat_lit(G)} {mat_lit(x)} {mat_lit(dual)} {m}%nat {r}%nat {mat_lit(xo)} {mat_lit(xs)})",
                  ("admm", r, m))
 
+    # ---------------- F. the whole function admm (loop, proximal_operator call with n_const / order, stopping rule, raising calls)
+    C13_admm.run_cases(chk, rng, T["nadmmloop"], admm, add_case, gen_problem, dyadic_start, impl_call, mat_lit, Skip)
+    C13_admm.run_predicates(chk, rng, T["nadmmpred"], admm, gen_problem, dyadic_start, impl_call, Skip)
+
     # ---------------- evaluate the correspondence inside Coq
     failing, n_eval, broken = C.run_case_shards("C13", HEADER, "case", cases, shard=24 if chk.tier == "quick" else 30, timeout=3000)
     chk.checker_cmds.append("coqc (vm_compute) on generated build/cases/C13/*.v: Corr.C13.failing")
@@ -899,7 +936,7 @@ def run(chk):
                        "single calls with the default n_iter_max / tol / lr -> approximately optimal (looser tolerance); "
                        "1-3 HALS passes and 1-4 FISTA iterations (given and default step) from dense / sparse / zero / infeasible / cold starts with epsilon, nonzero_rows, zero diagonals -> model vs implementation; "
                        "the cold start of hals_nnls (n_iter_max=0) vs the model's hals_init; the entry point fista with sparsity_coef / ridge_coef / lr / x given or None vs the model's fista_call; "
-                       "active set cold / warm (a quarter of the warm starts given as an (r,1) matrix) vs the exact model; ADMM(n_const=None) vs the model with exact elimination. "
+                       "active set cold / warm (a quarter of the warm starts given as an (r,1) matrix) vs the exact model; ADMM(n_const=None) vs the model with exact elimination; the whole function admm (n_const / order given or None, no constraint / non_negative / l1_reg / l2_square_reg, 0-4 iterations, tol default / 0 / negative / .5 / placed around an observed ratio, calls that raise) vs Model/NnlsAdmm.v. "
                        "non-trivial = more than one unknown*rhs; distinct key = (solver, size, design sign, optimum style, start, coefficients, epsilon)")
     for b_ in broken:
         chk.broken.append({"what": "correspondence corr:C13 shard not evaluated", "detail": b_})
@@ -949,6 +986,8 @@ def replay(payload):
     from tensorly.solvers.admm import admm
     arr = lambda v: None if v is None else (C.from_jsonable_array(v) if isinstance(v, dict) else np.asarray(v, dtype=float))
     inp, ep = payload["inputs"], payload["entry_point"]
+    if ep == EP_ADMM and inp.get("admm_call"):
+        return C13_admm.replay(payload, admm)
     if ep == EP_ADMM:
         UtM, G, x, dual = arr(inp["UtM"]), arr(inp["UtU"]), arr(inp["x"]), arr(inp["dual_var"])
         st, out = C.call_impl(lambda: admm(UtM.copy(), G.copy(), x.copy(), dual.copy(), n_const=None))
